@@ -44,7 +44,7 @@ Definition sw_in_fragment : bool :=
   | Some orc =>
       let K := 48%nat in
       let R := fold_right Nat.max O (map (max_rank sw_env K 60) (roots sw_env sw_schema)) in
-      guarded_b sw_env K R 60 sw_schema && forallb (walk_b (lc_b f_finite false orc) 60) (roots sw_env sw_schema)
+      guarded_b sw_env K R 60 sw_schema && forallb (walk_b (lc_b f_finite orc) 60) (roots sw_env sw_schema)
   | None => false
   end.
 Theorem C02_swagger20_schema_is_inside_the_agreement_fragment : sw_in_fragment = true.
